@@ -414,7 +414,7 @@ impl Observer {
 //@ file: src/public.rs
 //@ impl: impl<T: Value> Observer<T>
 //@ name: disallow_future_use
-//@ as: fn disallow_future_use__always_reaches_the_shared_observer(&self)
+//@ as: fn disallow_future_use(&self)
 //@ panics: diverge
 //@ rule R8: `self.internal.disallow_future_use(&state);` => `vx_diverge();` x1
 //@ props: C10 C05
@@ -428,8 +428,8 @@ impl Observer {
 //@ impl: impl<T: Value> Drop for Observer<T>
 //@ name: drop
 //@ as: fn drop__other_clones_alive(&mut self)
-//@ rule R8: `self.internal.disallow_future_use(&state);` => `vx_forbidden();` x1
-//@ rule R8 re: `self\.internal\s*\.state\s*\.set\(ObserverState::Disallowed\);` => `vx_forbidden();` x1
+//@ rule R8: `self.internal.disallow_future_use(&state);` => `vx_forbidden();` x*
+//@ rule R8 re: `self\.internal\s*\.state\s*\.set\(ObserverState::Disallowed\);` => `vx_forbidden();` x*
 //@ props: C10 C05
 //@ contract:
 //@|     requires rc_count(&old(self).sentinel) >= 2,       // another clone of this observer handle is alive
@@ -443,8 +443,8 @@ impl Observer {
 //@ name: drop
 //@ as: fn drop__last_clone_state_alive(&mut self)
 //@ panics: diverge
-//@ rule R8: `self.internal.disallow_future_use(&state);` => `vx_diverge();` x1
-//@ rule R8 re: `self\.internal\s*\.state\s*\.set\(ObserverState::Disallowed\);` => `vx_forbidden();` x1
+//@ rule R8: `self.internal.disallow_future_use(&state);` => `vx_diverge();` x*
+//@ rule R8 re: `self\.internal\s*\.state\s*\.set\(ObserverState::Disallowed\);` => `vx_forbidden();` x*
 //@ props: C10 C05
 //@ contract:
 //@|     requires rc_count(&old(self).sentinel) <= 1, shared_state_alive(&*old(self).internal),
@@ -457,8 +457,8 @@ impl Observer {
 //@ name: drop
 //@ as: fn drop__last_clone_state_gone(&mut self)
 //@ panics: diverge
-//@ rule R8: `self.internal.disallow_future_use(&state);` => `vx_forbidden();` x1
-//@ rule R8 re: `self\.internal\s*\.state\s*\.set\(ObserverState::Disallowed\);` => `vx_diverge();` x1
+//@ rule R8: `self.internal.disallow_future_use(&state);` => `vx_forbidden();` x*
+//@ rule R8 re: `self\.internal\s*\.state\s*\.set\(ObserverState::Disallowed\);` => `vx_diverge();` x*
 //@ props: C10
 //@ contract:
 //@|     requires rc_count(&old(self).sentinel) <= 1, !shared_state_alive(&*old(self).internal),
